@@ -14,7 +14,8 @@ DEFAULT_KNOBS = {
     "nest": True,            # @media / @supports nesting
 }
 
-RELATED_NAMES = ["--text", "--text-muted", "--text-muted-2", "--brand", "--brand-dark", "--c", "--c-1", "--c-1-x", "--bg", "--bg-alt", "--a_b", "--a_b-c"]
+RELATED_NAMES = ["--text", "--text-muted", "--text-muted-2", "--brand", "--brand-dark", "--c", "--c-1", "--c-1-x", "--bg", "--bg-alt", "--a_b", "--a_b-c",
+                 "--mainText", "--maintext", "--Brand", "--BG", "--textMuted"]  # custom property names are case-sensitive
 
 CARRY_RULES = [
     '@charset "utf-8";',
